@@ -488,7 +488,7 @@ func runC16(c *Check) {
 
 	// ---- R7 GetOutputs
 	if fn := c.Fn("R7", "client.(*RemoteClient).GetOutputs"); fn != nil {
-		outpoints := paramNamed(fn, "outpoints")
+		outpoints := paramAt(fn, "outpoints", 2)
 		n := 0
 		for _, b := range fn.Blocks {
 			for _, in := range b.Instrs {
